@@ -33,7 +33,7 @@ FLOORS = {'cyclic_cases': 100, 'acyclic_cases': 100, 'failure_cases': 100,
           'absolute_cycles': 60, 'linked_workbook_cases': 8,
           'long_cycles': 10, 'percent_in_cycle': 30,
           'bare_reference_rings': 30, 'dormant_ring_cases': 8,
-          'nested_sheet_name_decoys': 20}
+          'nested_sheet_name_decoys': 20, 'non_ascii_cycles': 10}
 ANCHOR_FUNCS = {
     'xlcalculator/evaluator.py': ['Evaluator.evaluate',
                                   'EvaluatorContext.eval_cell'],
@@ -359,6 +359,27 @@ def run(ctx):
                              ('long-cycle-mid', length, tail, closing), wb,
                              model, mid, total)
 
+    # ---- cycles and failing chains on sheets with non-ASCII names (the report
+    # names every cell once: its size grows with the length of the chain, not
+    # faster) -----------------------------------------------------------------
+    for sname in ('\u00dcbersicht', '\u58f2\u4e0a', 'Donn\u00e9es 1'):
+        for length in (12, 16, 20):
+            for closing in ('ref', 'range'):
+                if not mine():
+                    continue
+                cells, names, start, total = cycle_graph(
+                    length, 2, closing, [sname])
+                desc = (f'cycle length {length}, tail 2, closed by {closing}, '
+                        f'on the sheet {sname!r}')
+                try:
+                    wb, model = C.build(cells, names, 'dict', derive=False)
+                except Exception as e:  # noqa
+                    ctx.fail(f'building {desc} raised {e!r}', {'graph': desc},
+                             monitor='construction', group='build')
+                    continue
+                ctx.event('non_ascii_cycles')
+                judge_cyclic(desc, ('non-ascii-cycle', sname, length,
+                                    closing), wb, model, start, total)
     # ---- acyclic decoys -------------------------------------------------------
     def decoys():
         a1 = R(1, 1)
@@ -427,7 +448,12 @@ def run(ctx):
         # same coordinates on the two sheets are different cells
         for short, long_ in (('Sales', 'Net Sales'), ('Q1', 'FY24-Q1'),
                              ('Costs', 'Total Costs'), ('Data', 'Data (2)'),
-                             ('a', 'a.a'), ('Plan', "Plan's"), ('X', 'X X')):
+                             ('a', 'a.a'), ('Plan', "Plan's"), ('X', 'X X'),
+                             # names that differ only in blanks around them
+                             ('Plan', 'Plan '), ('Q', 'Q\u00a0'),
+                             ('lead', ' lead'), ('T', 'T\u2009')):
+            blank_twin = short.strip() == long_.strip() or \
+                long_.strip('\u00a0\u2009 ') == short
             base = {(short, 2, 2): ('f', plus(R(1, 1, short), ONE)),
                     (short, 1, 1): 10, ('Returns', 2, 2): 3}
             cells = dict(base)
@@ -444,7 +470,11 @@ def run(ctx):
             cells[(short, 2, 3)] = 4
             cells[(long_, 2, 2)] = ('f', ('call', 'SUM', [
                 ('rng', short, 2, 2, 2, 3, F4_)]))
-            yield f'nested names: {long_}!B2 = SUM({short}!B2:B3)', cells, (long_, 2, 2)
+            if not blank_twin:
+                # (a multi-cell range on a sheet whose name differs from
+                # another one only in surrounding blanks is outside this check)
+                yield f'nested names: {long_}!B2 = SUM({short}!B2:B3)', \
+                    cells, (long_, 2, 2)
             # and the other way round: the short name needs the long one
             cells = {(long_, 2, 2): ('f', plus(R(1, 1, long_), ONE)),
                      (long_, 1, 1): 10,
